@@ -6,6 +6,8 @@
  *   splitfull <uri-hex>                     the client's uriSplit (all nine outputs)
  *   svc <agg|ext> <uri-hex> <login|~> <key|~>    KSI_CTX_setAggregator / KSI_CTX_setExtender (blocking)
  *   async <sign|ext> <uri-hex> <login|~> <key|~> KSI_AsyncService_setEndpoint
+ *   svc2 <agg|ext> <uri1-hex> <uri2-hex> <login|~> <key|~>   the blocking setter twice on one context => <status1> <status2> <H|T|F: the
+ *                                            transport that serves the service afterwards>
  * strings are hex, "-" = empty, "~" = NULL
  */
 #include "common.h"
@@ -15,6 +17,7 @@
 #include <ksi/net_async.h>
 #include <ksi/impl/net_impl.h>
 #include <ksi/impl/ctx_impl.h>
+#include <ksi/impl/net_uri_impl.h>
 
 static KSI_CTX *ctx;
 static char cap[200000];
@@ -85,6 +88,17 @@ static void do_line(char *work, const char *orig) {
 		r = !strcmp(w[1], "agg") ? KSI_CTX_setAggregator(c, uri, login, key) : KSI_CTX_setExtender(c, uri, login, key);
 		printf("%d %s", r, capn ? cap : "none");
 		KSI_CTX_free(c); free(uri); free(login); free(key);
+	} else if (n >= 6 && !strcmp(w[0], "svc2")) {
+		/* the service is set twice on one context: which transport serves it afterwards */
+		char *u1 = cstr(w[2]), *u2 = cstr(w[3]), *login = cstr(w[4]), *key = cstr(w[5]); KSI_CTX *c = NULL; int r1, r2, agg = !strcmp(w[1], "agg");
+		struct KSI_UriClient_st *uc; KSI_NetworkClient *act;
+		if (KSI_CTX_new(&c) != KSI_OK) { printf("CTX-FAILED"); return; }
+		r1 = agg ? KSI_CTX_setAggregator(c, u1, login, key) : KSI_CTX_setExtender(c, u1, login, key);
+		r2 = agg ? KSI_CTX_setAggregator(c, u2, login, key) : KSI_CTX_setExtender(c, u2, login, key);
+		uc = (struct KSI_UriClient_st *)c->netProvider->impl;
+		act = agg ? uc->pAggregationClient : uc->pExtendClient;
+		printf("%d %d %c", r1, r2, act == uc->httpClient ? 'H' : act == uc->tcpClient ? 'T' : act == uc->fsClient ? 'F' : '?');
+		KSI_CTX_free(c); free(u1); free(u2); free(login); free(key);
 	} else if (n >= 5 && !strcmp(w[0], "async")) {
 		char *uri = cstr(w[2]), *login = cstr(w[3]), *key = cstr(w[4]); KSI_AsyncService *as = NULL; int r;
 		r = !strcmp(w[1], "sign") ? KSI_SigningAsyncService_new(ctx, &as) : KSI_ExtendingAsyncService_new(ctx, &as);
